@@ -70,8 +70,13 @@ func attemptOf(m *handler.Message) string {
 		return "1005"
 	case *type1006.Message:
 		return "1006"
+	case string:
+		return "none" // the library's notice that this type is not decoded
 	}
-	return "none"
+	if m.ErrorMessage != "" {
+		return "failed: " + m.ErrorMessage // a decoder was tried on it and refused it
+	}
+	return "nothing"
 }
 
 type c20Dispatch struct {
@@ -122,6 +127,38 @@ func dispatchEvents(w *tr.Writer) {
 			}
 			w.Emit(ev)
 		}
+	}
+	// every timed MSM type alone across its own week roll-over: a message late in the week, one 2 s later in the next week:
+	// the time advances by 2 s and the start of week by exactly one week (each type keeps and reports its OWN week)
+	for _, t := range timed {
+		ev := map[string]interface{}{"t": t, "roll": true, "delta_ms": -1, "sow_delta_ms": -1, "err": ""}
+		late, early := uint(604799000), uint(1000)
+		if con(t) == 1 { // GLONASS: day 6, 23:59:59 -> day 0, 00:00:01
+			late, early = 6<<27|86399000, 0<<27|1000
+		}
+		h := handler.New(start, slog.LevelInfo)
+		p := tr.Recover(func() {
+			m1, e1 := h.GetMessage(msmFrame(rng, t, late))
+			m2, e2 := h.GetMessage(msmFrame(rng, t, early))
+			if e1 != nil || e2 != nil || m1 == nil || m2 == nil {
+				ev["err"] = "conversion failed"
+				return
+			}
+			a, ok1 := parseShown(m1.SentAt, "Time ", base)
+			b, ok2 := parseShown(m2.SentAt, "Time ", base)
+			sa, ok3 := parseShown(m1.StartOfWeek, " week ", base)
+			sb, ok4 := parseShown(m2.StartOfWeek, " week ", base)
+			if !ok1 || !ok2 || !ok3 || !ok4 {
+				ev["err"] = "time not shown"
+				return
+			}
+			ev["delta_ms"] = (b[0]-a[0])*weekMs + b[1] - a[1]
+			ev["sow_delta_ms"] = (sb[0]-sa[0])*weekMs + sb[1] - sa[1]
+		})
+		if p != "" {
+			ev["err"] = "panic: " + p
+		}
+		w.Emit(ev)
 	}
 }
 
